@@ -183,7 +183,7 @@ impl C08 {
                 let cuts = prop::collection::vec(prop_oneof![1 => Just(0u8), 2 => 1u8..4, 3 => 4u8..60], 1..6);
                 let op: BoxedStrategy<(Op, bool)> = match opk {
                     // plain / top-k sort
-                    0 | 1 => (fetch_strategy(max_rows), any::<bool>(), prop_oneof![3 => Just(0u8), 1 => 1u8..=(nk as u8)]).prop_map(|(fetch, preserve, presorted)| (Op::Sort { fetch, preserve, presorted }, false)).boxed(),
+                    0 | 1 => (fetch_strategy(max_rows), any::<bool>(), prop_oneof![3 => Just(0u8), 2 => 1u8..=(nk as u8)]).prop_map(|(fetch, preserve, presorted)| (Op::Sort { fetch, preserve, presorted }, false)).boxed(),
                     // external sort under a memory limit
                     2 => (any::<bool>()).prop_map(|preserve| (Op::Sort { fetch: None, preserve, presorted: 0 }, true)).boxed(),
                     3 => (fetch0_strategy(max_rows), any::<bool>()).prop_map(|(fetch, round_robin)| (Op::Spm { fetch, round_robin }, false)).boxed(),
